@@ -1558,6 +1558,10 @@ struct ExtractSpec {
     no_decreases: bool,
     boundmap: bool,
     to_block_end: bool,
+    /// `//@stmts N`: the slice is the anchor statement and the N-1 statements that follow it in its block
+    stmts_n: usize,
+    /// `//@wrap-ok`: the slice ends in the value of its block, while its `?` exits are Err exits of the enclosing function: the value is the Ok result
+    wrap_ok: bool,
     no_loop_isolation: bool,
     file: String,
     impl_key: Option<String>,
@@ -1609,6 +1613,7 @@ struct Unit {
     report: Vec<String>,
     n_extracted: usize,
     range_shim: bool,
+    cursor_shim: bool,
 }
 
 struct Found {
@@ -1768,10 +1773,27 @@ impl Unit {
                     block.stmts.push(st.clone());
                 }
             }
+            if spec.stmts_n > 1 {
+                let rest = &f.cands[spec.anchor_up].2;
+                if rest.len() + 1 < spec.stmts_n {
+                    die(&format!("lost anchor: //@stmts {} but only {} statements follow the anchor", spec.stmts_n, rest.len()));
+                }
+                for st in rest.iter().take(spec.stmts_n - 1) {
+                    sp_end = st.span().end().line;
+                    block.stmts.push(st.clone());
+                }
+            }
             let ends_with_value = spec.to_block_end
                 && matches!(block.stmts.last(), Some(Stmt::Expr(e, None)) if !matches!(e, Expr::ForLoop(_) | Expr::While(_)));
             match &spec.yield_ident {
-                _ if ends_with_value => {} // the enclosing block's own tail expression is the slice's result
+                _ if ends_with_value => {
+                    // the enclosing block's own tail expression is the slice's result
+                    if spec.wrap_ok {
+                        if let Some(Stmt::Expr(e, None)) = block.stmts.pop() {
+                            block.stmts.push(Stmt::Expr(parse_quote! { Ok(#e) }, None));
+                        }
+                    }
+                }
                 Some(y) => {
                     let ye: Expr = syn::parse_str(y).unwrap_or_else(|_| die("cannot parse //@yield expression"));
                     block.stmts.push(Stmt::Expr(ye, None));
@@ -1933,6 +1955,38 @@ impl Unit {
                 }
             }
             RangePass { log: &mut log }.visit_block_mut(&mut block);
+        }
+        if self.cursor_shim {
+            // R-CURSOR: `&mut &E[..]` (a fresh `&[u8]` over all bytes of E, consumed only through std::io::Read) is a byte cursor at
+            // position 0 over E's bytes: `&mut shim_cursor(&E)` (same representation as rule R-TYPE `&[u8] => ByteCursor`)
+            struct CursorPass<'a> { log: &'a mut Vec<String> }
+            impl<'a> VisitMut for CursorPass<'a> {
+                fn visit_expr_mut(&mut self, e: &mut Expr) {
+                    visit_mut::visit_expr_mut(self, e);
+                    let mut new: Option<Expr> = None;
+                    if let Expr::Reference(r1) = e {
+                        if r1.mutability.is_some() {
+                            if let Expr::Reference(r2) = &*r1.expr {
+                                if r2.mutability.is_none() {
+                                    if let Expr::Index(ix) = &*r2.expr {
+                                        if let Expr::Range(rg) = &*ix.index {
+                                            if rg.start.is_none() && rg.end.is_none() {
+                                                let inner = &ix.expr;
+                                                new = Some(parse_quote! { &mut shim_cursor(&#inner) });
+                                            }
+                                        }
+                                    }
+                                }
+                            }
+                        }
+                    }
+                    if let Some(n) = new {
+                        self.log.push("R-CURSOR `&mut &E[..]` spelled as a byte cursor over E".into());
+                        *e = n;
+                    }
+                }
+            }
+            CursorPass { log: &mut log }.visit_block_mut(&mut block);
         }
         // R-FORTMP
         ForTmp { log: &mut log, n: 0 }.visit_block_mut(&mut block);
@@ -2753,6 +2807,9 @@ impl Unit {
                     "broadcast" => {
                         self.broadcast = rest.to_string();
                     }
+                    "cursor-shim" => {
+                        self.cursor_shim = true;
+                    }
                     "range-shim" => {
                         self.range_shim = true;
                     }
@@ -2899,6 +2956,8 @@ impl Unit {
                                     "contract" => sec = Sec::Contract,
                                     "anchor" => spec.stmt_anchor = Some(rest.to_string()),
                                     "to-block-end" => spec.to_block_end = true,
+                                    "wrap-ok" => spec.wrap_ok = true,
+                                    "stmts" => spec.stmts_n = rest.trim().parse().unwrap_or_else(|_| die("bad //@stmts")),
                                     "anchor-up" => spec.anchor_up = rest.parse().unwrap_or_else(|_| die("bad //@anchor-up")),
                                     "sig" => spec.sig_text = Some(rest.to_string()),
                                     "yield" => spec.yield_ident = Some(rest.to_string()),
@@ -2980,6 +3039,7 @@ fn main() {
         report: vec![],
         n_extracted: 0,
         range_shim: false,
+        cursor_shim: false,
     };
     u.process(Path::new(&args[3]), 0);
     std::fs::write(&args[4], &u.out).unwrap_or_else(|_| die("cannot write output"));
